@@ -464,9 +464,14 @@ package helper
 // ---- JSON stream reader relative to an assumed contract of encoding/json.Decoder (C19) -----------------------------
 // whatever the bytes: the stream is closed on every path and the decode loop terminates (a successful Decode
 // consumes input; a failed one ends the goroutine)
+// relative to the assumed contract of encoding/json.Decoder (Decode merges into its destination: only a destination
+// holding the zero value is known to end up as the decoded element): the k-th value delivered is the k-th element of
+// the document decoded into a fresh zero value - jsonelem(result, r, k) - so no element inherits state from an earlier one
 //@ func JSONToChanWithLogger
 //@ ensures[C19] "stream-is-closed-on-every-path" closed(result)
+//@ ensures[C11] "each-value-is-its-own-element-decoded-afresh" forall k :: 0 <= k && k < len(result) ==> result[k] == jsonelem(result, r, k)
 //@ loop#0 invariant !closed(c) && extrem(decoder) >= 0
+//@ loop#0 invariant jsoncnt(decoder) == sent(c) && (forall k :: 0 <= k && k < sent(c) ==> c[k] == jsonelem(c, r, k))
 //@ loop#0 decreases extrem(decoder)
 
 // ---- CSV reader relative to an assumed contract of encoding/csv.Reader (C19, C11) ----------------------------------
